@@ -476,6 +476,24 @@ def run_c05(tier, seed):
         c["delivery"] = mode
         c["line"] = L.mkcase(steps, default=c["hres"], app=[c["reg"].encode()] if c.get("reg") else ())
         c["desc"] = req_desc(sent, c["args"])[:300] + " [delivered: %s]" % mode
+    # the command NAME is matched case-insensitively every time, not only the first time a spelling is seen: several connections of one
+    # password-protected server authenticate with the same spelling, then use a command with the same spelling
+    multi = []
+    for spell in (b"auth", b"Auth", b"AUTH", b"aUtH"):
+        for cmd in (b"get", b"Get", b"GET"):
+            steps = []
+            for ci in range(4):
+                steps += [(ci, "f" + L.hx(G.request_bytes(spell.decode(), [b"secret"]))), (ci, "f" + L.hx(G.request_bytes(cmd.decode(), [b"k%d" % ci])))]
+            steps += [(ci, "e") for ci in range(4)]
+            multi.append(dict(line=L.mkcase(steps, pw=b"secret", conns=4, default="mb(76)", trace=False), spell=spell, cmd=cmd,
+                              desc="4 connections, each: %s secret ; %s k<i>" % (spell.decode(), cmd.decode())))
+    for c in run_cases(chk, multi):
+        for ci, (res, evs) in enumerate(c["iobs"].conns):
+            ws = [w[1] for w in L.writes_of(evs)]
+            calls = [x[4] for x in L.calls_of(evs)]
+            if ws != [b"+OK\r\n", b"$1\r\nv\r\n"] or calls != ["Get(%s)" % L.hx(b"k%d" % ci)]:
+                chk.violation("name-casing-repeat", "connection %d of: %s: replies %s, handler calls %s (expected +OK, the value, and exactly one Get)" % (ci, c["desc"], ws, calls), dict(case=c["line"], desc=c["desc"]))
+                break
     good = run_cases(chk, cases)
     validated, distinct, per_cmd = 0, set(), {}
     for c in good:
@@ -556,6 +574,18 @@ def run_c10(tier, seed):
         data = G.request_bytes("SELECT", [b"3"]) + G.request_with_nulls("SELECT", bad) + G.request_bytes("PING", []) + G.request_bytes("GET", [b"after"])
         cases.append(dict(name="SELECT", kind=kind, args=bad, follow=follow, db=3, line=L.mkcase([(0, "f" + L.hx(data)), (0, "e")], default="mb(76)"),
                           desc="SELECT 3 ; %s [%s]" % (req_desc("SELECT", bad), kind)))
+    # ill-formed requests LONGER than the parser pre-allocates for (1024 elements): the malformation sits behind element 1023
+    for nel in (1026, 1028, 2050):
+        keys = [b"k%d" % i for i in range(nel)]
+        longs = [("MSET", [x for i in range((nel - 2) // 2) for x in (b"k%d" % i, b"v")] + [b"dangling"], "dangling-key"),
+                 ("DEL", keys[:nel - 2] + [None], "null"), ("SADD", [b"s"] + keys[:nel - 3] + [None], "null"), ("RPUSH", [b"l"] + keys[:nel - 3] + [None], "null"),
+                 ("HMSET", [b"h"] + [x for i in range((nel - 3) // 2) for x in (b"f%d" % i, b"v")] + [b"dangling"], "dangling-field"),
+                 ("ZADD", [b"z"] + [x for i in range((nel - 3) // 2) for x in (b"%d" % i, b"m%d" % i)] + [b"7"], "dangling-score")]
+        for name, args, kind in longs:
+            follow = ("PING", [], b"+PONG\r\n")
+            data = G.request_with_nulls(name, args) + G.request_bytes("PING", []) + G.request_bytes("GET", [b"after"])
+            cases.append(dict(name=name, kind=kind + "@long", args=args[:3], follow=follow, db=0, line=L.mkcase([(0, "f" + L.hx(data)), (0, "e")], default="mb(76)"),
+                              desc="%s with %d elements, %s at the end" % (name, len(args) + 1, kind)))
     # random corruption of valid requests (monitors: hang/panic/frames only)
     nrand = 600 if tier == "quick" else 8000
     for _ in range(nrand):
@@ -634,8 +664,10 @@ def run_c11(tier, seed):
         for k in range(len(data) + 1):
             mode = "e" if (k + pi) % 2 == 0 else "x"
             j = sum(1 for e in ends if e <= k)
-            cases.append(dict(reqs=reqs, k=k, j=j, mode=mode, line=L.mkcase(([(0, "f" + L.hx(data[:k]))] if k else []) + [(0, mode)], default="mb(76)"),
-                              desc="pipeline %s cut at byte %d of %d (%s)" % (" ; ".join(req_desc(n, a) for n, a in reqs)[:200], k, len(data), "half-close" if mode == "e" else "full close")))
+            cf = [True] if (k + pi) % 3 == 0 else None       # closing the socket reports an error (a TLS peer that is gone): release must not depend on it
+            cases.append(dict(reqs=reqs, k=k, j=j, mode=mode, line=L.mkcase(([(0, "f" + L.hx(data[:k]))] if k else []) + [(0, mode if not cf else "r")], default="mb(76)", cfail=cf),
+                              desc="pipeline %s cut at byte %d of %d (%s)" % (" ; ".join(req_desc(n, a) for n, a in reqs)[:200], k, len(data),
+                                                                            "reset, Close reports an error" if cf else ("half-close" if mode == "e" else "full close"))))
     # a request with more elements than the parser pre-allocates for (proto.maxArrayPrealloc = 1024), behind a small complete one:
     # the stream ends at / around every element boundary near the cap and its doublings, and at every byte of the elements around the cap
     for n_el, pi2 in ((1030, 0), (2052, 1)) if tier == "quick" else ((1025, 0), (1030, 1), (1500, 0), (2052, 1), (4100, 0)):
@@ -724,11 +756,20 @@ def outcome_cases(rng, n, tier):
             elif r < 0.8 and pw: reqs.append(("AUTH", [rng.choice([pw, b"wrong", b""])]))
             elif r < 0.88: reqs.append((rng.choice(["STRLEN", "HLEN", "HKEYS", "SUBSTR", "HEXISTS", "HSTRLEN", "HVALS"]), [b"k", b"0", b"1"]))
             else: reqs.append(("QUIT", []))
-        data = b"".join(G.request_with_nulls(nm if isinstance(nm, str) else nm.decode("latin1"), a) for nm, a in reqs)
+        parts = [G.request_with_nulls(nm if isinstance(nm, str) else nm.decode("latin1"), a) for nm, a in reqs]
+        if rng.random() < 0.08:
+            # QUIT wrapped in one or two more array levels (the server looks through nested arrays), then one more request
+            parts += [rng.choice([b"*1\r\n*1\r\n$4\r\nQUIT\r\n", b"*1\r\n*1\r\n*1\r\n$4\r\nquit\r\n", b"*2\r\n*1\r\n$4\r\nQuit\r\n$1\r\nx\r\n"]), G.request_bytes("PING", [])]
+            reqs = reqs + [("<nested QUIT>", []), ("PING", [])]
+        # a certificate rule on the server (plain connections then fail every AUTH without an error from the authenticator)
+        rule = b"trusted-client" if rng.random() < 0.12 else None
+        if rule and rng.random() < 0.7:
+            parts += [G.request_bytes("AUTH", [rng.choice([b"x", b"secret", b""])]), G.request_bytes("PING", [])]
+            reqs = reqs + [("AUTH", [b"x"]), ("PING", [])]
+        data = b"".join(parts)
         endk = rng.choice(["boundary", "inside", "garbage", "reset", "wfail"])
         steps = []
         if endk == "boundary":
-            parts = [G.request_with_nulls(nm if isinstance(nm, str) else nm.decode("latin1"), a) for nm, a in reqs]
             cut = rng.randint(0, len(parts))
             steps = [(0, "f" + L.hx(b"".join(parts[:cut])))] if cut else []
             steps.append((0, "e"))
@@ -742,7 +783,8 @@ def outcome_cases(rng, n, tier):
         else:
             steps = [(0, "w"), (0, "f" + L.hx(data)), (0, "x")]
         noerr = has_mapcmd([(n_, a) for n_, a in reqs if isinstance(n_, str)])
-        cases.append(dict(line=L.mkcase(steps, pw=pw, tbl=rand_table(rng, noerr=noerr), default=rng.choice(HRES_NOERR if noerr else HRES_POOL)), endk=endk,
+        cfail = [True] if rng.random() < 0.15 else None       # closing the socket reports an error (TLS peer gone): the release must not depend on it
+        cases.append(dict(line=L.mkcase(steps, pw=pw, tbl=rand_table(rng, noerr=noerr), default=rng.choice(HRES_NOERR if noerr else HRES_POOL), rule=rule, cfail=cfail), endk=endk,
                           desc=("[pw] " if pw else "") + " ; ".join(req_desc(n_, a) for n_, a in reqs)[:260] + " [end: %s]" % endk))
     return cases
 
